@@ -9,7 +9,7 @@ from .common import coq_bool, coq_list, coq_option
 
 PID = "C03"
 PROPS_FILE = "props/C03.v"
-MODEL_TARGETS = ["model/Fresh.vo", "model/FreshSkip.vo"]
+MODEL_TARGETS = ["model/Fresh.vo", "model/FreshSkip.vo", "model/FreshStat.vo"]
 RULE = ("(1) stamps: random histories of record_run_started/record_run_stopped(ok)/build_completed over 2-6 step ids "
         "with a scripted time.monotonic_ns (repeated readings frequent) on the real Scheduler versus "
         "Fresh.brun (functions generated from scheduler.py), comparing both dictionaries and every (producer, "
@@ -58,10 +58,20 @@ from .p_c03_sigs import SIG_OTHER, SIG_RECONF, SIG_RERUN, SIG_SKIP_WINDOW, SIG_V
 
 
 def generate(ctx):
-    from translator import gen_fresh
-    text, facts = gen_fresh.generate()
-    ctx.write_gen("GenFresh.v", text)
-    ctx.facts = facts
+    from translator import gen_fresh, gen_fresh_stat
+    from translator.astutil import TranslatorError
+    errors = []
+    ctx.facts = {}
+    for mod, name in ((gen_fresh, "GenFresh.v"), (gen_fresh_stat, "GenFreshStat.v")):
+        try:
+            text, facts = mod.generate()
+        except TranslatorError as e:      # the other file is still regenerated: its model keeps running
+            errors.append(e)
+            continue
+        ctx.write_gen(name, text)
+        ctx.facts.update(facts)
+    if errors:
+        raise errors[0]
 
 
 # ---------------------------------------------------------------------------------------------
@@ -188,6 +198,166 @@ def stamps_correspondence(ctx):
     for i in bad[:3]:
         ctx.add_failure("correspondence", "stamps", "corr:stamps:model-vs-scheduler",
                         f"Scheduler stamp bookkeeping and the generated model disagree on {descr[i]}",
+                        witness=descr[i])
+
+
+# ---------------------------------------------------------------------------------------------
+# (1b) FileHash.refreshed / compute_inp_hashes on real files versus model/FreshStat.v
+# ---------------------------------------------------------------------------------------------
+
+STAT_HEADER = ("From Coq Require Import List NArith Bool.\nImport ListNotations.\n"
+               "From SV Require Import model.FreshStatTypes gen.GenFreshStat model.FreshStat.\nOpen Scope N_scope.\n")
+
+FS_OPS = ("inplace", "rename", "rename_keep", "chmod_keep", "same_newino", "touch", "delete", "create",
+          "forge_inplace", "touch_back")
+
+
+def refreshed_correspondence(ctx):
+    """The real FileHash.refreshed and hash.compute_inp_hashes on a real file after a random history of
+    file system operations (c03_driver.REPLACE_KINDS, deletion, re-creation and the two dishonest ones:
+    same-size bytes written in place with the mtime restored, a touch back to the recorded mtime)
+    versus FreshStat.refreshed / inp_entry on the abstraction (digest code, st_mode, mtime code,
+    st_size, st_ino).  The record is the hash taken at some earlier moment of the history, the
+    unknown hash, or a record whose stat fields were perturbed.  Also checked on the implementation
+    alone: a difference in content, size or mode after an HONEST history must be reported."""
+    import os
+    import tempfile
+    import threading
+
+    from stepup.core.exceptions import ConsistencyError
+    from stepup.core.hash import FileHash, compute_inp_hashes
+
+    from .c03_driver import REPLACE_KINDS, replace_file
+    rng = ctx.rng
+    dcodes, mcodes = {b"u": 0}, {0.0: 0}
+
+    def dcode(b):
+        return dcodes.setdefault(bytes(b), len(dcodes))
+
+    def mcode(x):
+        return mcodes.setdefault(float(x), len(mcodes))
+
+    def coq_fh(h):
+        return f"(mkFH {dcode(h.digest)} {h.mode} {mcode(h.mtime)} {h.size} {h.inode})"
+
+    checks, descr = [], []
+    old_cwd = os.getcwd()
+    with tempfile.TemporaryDirectory(prefix="verif-c03stat-") as tmp:
+        os.chdir(tmp)
+        try:
+            for k in range(ctx.scale(150, 1500)):
+                path = f"f{k}.txt"
+                variant = [0]
+
+                def fresh_bytes():
+                    variant[0] += 1
+                    return f"{path}:{variant[0]}:".encode() + b"x" * rng.choice([0, 0, 1, 3])
+
+                with open(path, "wb") as fh:
+                    fh.write(fresh_bytes())
+                os.utime(path, ns=(10**18, 10**18 + k))
+                record, honest, hist = None, True, []
+                rec_stat = None
+                nops = rng.randint(0, 4)
+                rec_at = rng.randint(0, nops)
+                for i in range(nops + 1):
+                    if i == rec_at:
+                        r = rng.random()
+                        if r < 0.08:
+                            record = FileHash.unknown()
+                        else:
+                            record = FileHash.unknown().refreshed(path)
+                            if r < 0.2 and not record.is_unknown:    # a record with other stat fields
+                                record = FileHash(record.digest, record.mode,
+                                                  record.mtime + rng.choice([0.0, 1.0]), record.size,
+                                                  record.inode + rng.choice([0, 1]))
+                        rec_stat = os.stat(path) if os.path.exists(path) else None
+                        honest = True
+                        hist.append("RECORD")
+                    if i == nops:
+                        break
+                    op = rng.choice(FS_OPS)
+                    exists = os.path.isfile(path)
+                    if op == "delete":
+                        if exists:
+                            os.remove(path)
+                    elif op == "create" or not exists:
+                        op = "create"
+                        with open(path + ".new~", "wb") as fh:
+                            fh.write(fresh_bytes())
+                        os.replace(path + ".new~", path)
+                    elif op == "inplace":
+                        with open(path, "wb") as fh:
+                            fh.write(fresh_bytes())
+                    elif op == "rename":
+                        with open(path + ".new~", "wb") as fh:
+                            fh.write(fresh_bytes())
+                        os.replace(path + ".new~", path)
+                    elif op == "forge_inplace":     # other bytes of the same size in place, mtime restored
+                        st = os.stat(path)
+                        data = open(path, "rb").read()
+                        variant[0] += 1
+                        head = f"Z{variant[0]:04d}".encode()
+                        with open(path, "r+b") as fh:
+                            fh.write((head + data[len(head):])[:len(data)])
+                        os.utime(path, ns=(st.st_atime_ns, st.st_mtime_ns))
+                        honest = False
+                    elif op == "touch_back":        # utime back to the recorded mtime
+                        if rec_stat is not None and i >= rec_at:
+                            os.utime(path, ns=(rec_stat.st_atime_ns, rec_stat.st_mtime_ns))
+                            honest = False
+                        else:
+                            op = "touch"
+                            replace_file(path, variant[0] + 1, "touch")
+                    else:
+                        variant[0] += 1
+                        replace_file(path, variant[0], op)
+                    hist.append(op)
+                # the implementation
+                got = record.refreshed(path)
+                try:
+                    res = compute_inp_hashes({path: record}, threading.Event())
+                    err = False
+                    differs = path in res.new_hashes
+                    msg = 0 if not res.messages else (1 if "vanished" in res.messages[0] else 2)
+                except ConsistencyError:
+                    err, differs, msg = True, False, 0
+                # the abstraction of what is under the path, taken independently of the shortcut
+                if os.path.isfile(path):
+                    st = os.stat(path)
+                    now = FileHash.unknown().refreshed(path)
+                    disk = f"(Some (mkCF {dcode(now.digest)} {st.st_mode} {mcode(st.st_mtime)} {st.st_size} {st.st_ino}))"
+                    truly = (now.digest, now.mode, now.size) != (record.digest, record.mode, record.size)
+                else:
+                    now, disk = None, "None"
+                    truly = not record.is_unknown
+                checks.append(f"refreshed_case {coq_fh(record)} {disk} {coq_fh(got)} {coq_bool(differs)} {msg} {coq_bool(err)}")
+                d = {"history": hist, "honest_after_record": honest, "reported": differs, "really_differs": truly}
+                descr.append(d)
+                after = hist[hist.index("RECORD") + 1:]
+                ctx.case(("refreshed", tuple(hist), differs), nontrivial=bool(after))
+                ctx.count("refreshed:" + ("reported" if differs else "same-object" if got is record else "rehashed-equal"))
+                perturbed = not record.is_unknown and rec_stat is not None and \
+                    (record.mtime, record.inode) != (rec_stat.st_mtime, rec_stat.st_ino)
+                if truly and not differs and honest and not perturbed and not err:
+                    ctx.add_failure("oracle", "refreshed-missed-change",
+                                    "oracle:refreshed:change-not-reported:after-" + (after[-1] if after else "nothing"),
+                                    f"FileHash.refreshed / compute_inp_hashes did not report a file whose content, size or "
+                                    f"mode differs from the record after the history {hist}", witness=d)
+                if differs and not truly:
+                    ctx.add_failure("oracle", "refreshed-false-change", "oracle:refreshed:unchanged-file-reported",
+                                    f"compute_inp_hashes reported a file with the recorded content, size and mode: {hist}",
+                                    witness=d)
+        finally:
+            os.chdir(old_cwd)
+    ctx.count("refreshed_cases", len(checks))
+    for d in descr[:2]:
+        ctx.sample({"refreshed": d})
+    bad = common.run_cases(ctx, "refreshed", STAT_HEADER, checks, chunk=400)
+    ctx.traces_validated += len(checks) - len(bad)
+    for i in bad[:3]:
+        ctx.add_failure("correspondence", "refreshed", "corr:refreshed:model-vs-hash.py",
+                        f"FileHash.refreshed / compute_inp_hashes and model/FreshStat.v disagree on {descr[i]}: {checks[i]}",
                         witness=descr[i])
 
 
@@ -718,8 +888,20 @@ def run_consumer_cases(ctx, n, big=False, specs=None, cases_out=None):
     return checks, descr, fails_all
 
 
+def _guarded(ctx, name, fn):
+    """One family must not take the others down (a stale or missing gen file after a translator
+    failure breaks only the Coq evaluation of that family)."""
+    try:
+        fn(ctx)
+    except Exception as e:  # noqa: BLE001
+        import traceback
+        ctx.add_failure("correspondence", name + "-crash", f"correspondence-crash:{name}:{type(e).__name__}",
+                        f"{name} crashed: {type(e).__name__}: {e}\n" + common.tail(traceback.format_exc(), 1200))
+
+
 def correspondence(ctx):
-    stamps_correspondence(ctx)
+    _guarded(ctx, "stamps", stamps_correspondence)
+    _guarded(ctx, "refreshed", refreshed_correspondence)
     n = ctx.scale(160, 1200)
     checks, descr, fails = run_consumer_cases(ctx, n, big=ctx.thorough())
     ctx.oracle_fails = fails
@@ -998,6 +1180,8 @@ def oracle(ctx):
     fails += system_witness(ctx)
     from .c03_e3 import run_e3
     fails += run_e3(ctx)
+    from .c03_repl import replace_system
+    fails += replace_system(ctx)
     ctx.count("oracle_failures", len(fails))
     report(ctx, fails)
 
